@@ -600,7 +600,10 @@ func (sw *SessionWindow) handleLateData(row types.Row) bool {
 	key := extractSessionCompositeKey(row.Data, sw.config.GroupByKeys)
 	for k, info := range sw.triggeredSessions {
 		if k == key && info.session.slot.Contains(row.Timestamp) {
-			// Append the late event before re-emitting so the update includes it.
+			// Append the late event before re-emitting so the update includes it. The row carries
+			// the session's slot like every other row of the session (without it the re-delivery
+			// reported window_start = window_end = 0).
+			row.Slot = info.session.slot
 			info.session.data = append(info.session.data, row)
 			sw.triggerLateUpdateLocked(info.session)
 			return true
